@@ -18,6 +18,10 @@ ACTIONS = ['open', 'open_rej', 'ws_open', 'poll', 'post_msg', 'post_two', 'post_
            'post_garbage', 'post_17', 'ws_connect', 'ws_probe', 'ws_upgrade', 'ws_badframe', 'ws_msg',
            'ws_closeframe', 'ws_peer_close', 'send', 'send_bin', 'disconnect_sid', 'tick',
            'get_unknown', 'get_wrong_transport', 'put', 'ws_drop', 'ws_fault']
+# the silence pass: histories over a smaller alphabet, each followed by every client falling silent for the heartbeat bound
+SILENT_ACTIONS = ['open', 'ws_open', 'post_close', 'poll', 'tick', 'wait41', 'disconnect_sid', 'ws_peer_close']     # wait41: 2 x ping_timeout + 1 s pass
+SILENT_ACTIONS_THOROUGH = SILENT_ACTIONS + ['wait20', 'open_rej', 'ws_connect', 'ws_probe', 'ws_upgrade', 'send', 'post_msg']
+SILENCE = 25 + 3 * 20 + 1.0
 TIMEOUTISH = {'ping timeout', 'transport close', 'transport error'}
 
 
@@ -31,6 +35,7 @@ class SleepyApp(RejectOnHeader):
 
 
 VARIANT = ['plain']
+ALPHABET = [None]
 
 
 class Side:
@@ -226,6 +231,11 @@ def build(hist):
                     s.w.advance_to(t)
                     s.w.run()
                 continue
+            if act in ('wait41', 'wait20'):
+                for s in (a, b):
+                    s.w.run_until(s.w.now + float(act[4:]))
+                    s.w.run()
+                continue
             ra, rb = a.apply(act), b.apply(act)
             if ra != rb:
                 return a, b, 'enabledness differs for %s: sync=%s async=%s' % (act, ra, rb)
@@ -238,6 +248,30 @@ def build(hist):
         a.w.teardown()
         b.w.teardown()
         raise
+
+
+def compare_after_silence(a, b):
+    """Every client has been silent for ping_interval + 3 x ping_timeout: both servers have detected it (no limbo)."""
+    for s in (a, b):
+        s.w.run_until(s.w.now + SILENCE)
+        s.w.run()
+    oa, ob = a.observables(), b.observables()
+    diffs = []
+    for k in ('events', 'alive'):
+        if report.dumps(oa[k], sort_keys=True) != report.dumps(ob[k], sort_keys=True):
+            diffs.append((k, oa[k], ob[k]))
+    if not diffs and (oa['alive'] or ob['alive']):
+        diffs.append(('alive', oa['alive'], ob['alive']))
+    return diffs
+
+
+def in_limbo(a, b):
+    """One server has dropped a session for silence and the other has not done so yet: what a later action on that session
+    does is not comparable (each is within the heartbeat bound) - such a history is compared but not extended."""
+    oa, ob = a.observables(), b.observables()
+    ta = {sid for sid, evs in oa['events'].items() if ('disconnect', 'timeout-class') in evs}
+    tb = {sid for sid, evs in ob['events'].items() if ('disconnect', 'timeout-class') in evs}
+    return bool(ta ^ tb)
 
 
 def compare(a, b):
@@ -285,7 +319,7 @@ def explore(depth, first_actions):
                 continue
             seen.add(key)
             states += 1
-            if len(hist) < depth:
+            if len(hist) < depth and not in_limbo(a, b):
                 for act in ACTIONS:
                     frontier.append(hist + (act,))
         finally:
@@ -319,7 +353,9 @@ def run(ctx):
         jobs.append((f, g))
     # second pass with handlers that take virtual time (a suspended handler is where the two servers could differ)
     sleepy = [[(depth - 1, ('@sleepy',) + j)] for j in jobs]
-    res = parallel.pmap_chunks(_work2, [[(depth, j)] for j in jobs] + [[(depth, (f,))] for f in ('open_rej', 'get_unknown', 'open', 'ws_open')] + sleepy,
+    sil = SILENT_ACTIONS if ctx.quick else SILENT_ACTIONS_THOROUGH
+    silence = [[(4, ('@silence' if ctx.quick else '@silence+', f, g))] for f in ('open', 'ws_open') for g in sil]
+    res = parallel.pmap_chunks(_work2, [[(depth, j)] for j in jobs] + [[(depth, (f,))] for f in ('open_rej', 'get_unknown', 'open', 'ws_open')] + sleepy + silence,
                                ctx.workers, ctx.seed, maxtasks=2)
     states = transitions = 0
     nv = 0
@@ -331,7 +367,7 @@ def run(ctx):
             for k, text, hist in viols[:200]:
                 rep.add(report.Violation(
                     {'impl': 'both', 'kind': 'divergence:' + k, 'trigger': hist[-1] if hist else ''},
-                    text[:700], {'history': list(hist), 'variant': 'sleepy' if text.startswith('[sleepy]') else 'plain'}, weight=(len(hist), 0)))
+                    text[:700], {'history': list(hist), 'variant': 'sleepy' if text.startswith('[sleepy]') else 'silence' if text.startswith('[silence]') else 'plain'}, weight=(len(hist), 0)))
     rep.coverage = {
         'states': states, 'transitions': transitions, 'traces_validated_against_impl': transitions * 2,
         'samples': [{'history': ['open', 'poll', 'ws_connect', 'ws_probe']}, {'history': ['ws_open', 'ws_msg', 'disconnect_sid']},
@@ -339,9 +375,9 @@ def run(ctx):
         'evaluations': transitions, 'distinct_nontrivial': states,
         'rule': 'breadth-first search over %d actions %r to depth %d, the same history applied in lock step to Server and AsyncServer '
                 'under the default schedule with a shared clock; de-duplication on the pair of canonical digests (done per work '
-                'partition: histories are partitioned by their first two actions); a diverged history is reported and not extended; a second '
-                'pass one level shallower runs with handlers that take virtual time (disconnect 0.25 s, message 0.125 s; histories in which two suspended handlers wake at the same instant are pruned - their order is a scheduling choice inside each server). '
-                'states = distinct digest pairs; transitions = histories executed on both implementations.' % (len(ACTIONS), ACTIONS, depth),
+                'partition: histories are partitioned by their first two actions); a diverged history is reported and not extended, nor is one in which exactly one of the two servers has already dropped a silent session (each is within its bound); a second '
+                'pass one level shallower runs with handlers that take virtual time (disconnect 0.25 s, message 0.125 s; histories in which two suspended handlers wake at the same instant are pruned - their order is a scheduling choice inside each server); a third pass (%d actions %r, depth 4) lets every client fall silent for ping_interval + 3 x ping_timeout after each history and demands that both servers have dropped every session, with the same events. '
+                'states = distinct digest pairs; transitions = histories executed on both implementations.' % (len(ACTIONS), ACTIONS, depth, len(sil), sil),
         'exhaustive': True, 'bound_completed': depth, 'divergences_total': nv,
     }
     rep.assumptions = [
@@ -357,6 +393,10 @@ def _work2(chunk):
     for depth, prefix in chunk:
         if isinstance(prefix, tuple) and prefix and prefix[0] == '@sleepy':
             VARIANT[0] = 'sleepy'
+            prefix = prefix[1:]
+        elif isinstance(prefix, tuple) and prefix and prefix[0] in ('@silence', '@silence+'):
+            VARIANT[0] = 'silence'
+            ALPHABET[0] = SILENT_ACTIONS if prefix[0] == '@silence' else SILENT_ACTIONS_THOROUGH
             prefix = prefix[1:]
         else:
             VARIANT[0] = 'plain'
@@ -395,10 +435,20 @@ def explore_from(depth, prefix):
                 continue
             seen.add(key)
             states += 1
+            limbo = in_limbo(a, b)
+            if VARIANT[0] == 'silence':
+                diffs = compare_after_silence(a, b)
+                if diffs:
+                    k, va, vb = diffs[0]
+                    viols.append(('silence:' + k, '[silence] after %r and %.0f s of silence from every client: %s: sync=%r async=%r'
+                                  % (list(hist), SILENCE, k, va, vb), hist))
+                    continue
             if top:
                 continue      # its children are separate partitions
+            if limbo:
+                continue
             if len(hist) < depth:
-                for act in ACTIONS:
+                for act in (ALPHABET[0] if VARIANT[0] == 'silence' else ACTIONS):
                     frontier.append(hist + (act,))
         finally:
             a.w.teardown()
@@ -418,6 +468,10 @@ def replay(ctx, payload):
         for k, va, vb in compare(a, b):
             print('DIVERGENCE in %s:\n  sync : %r\n  async: %r' % (k, va, vb))
             return 1
+        if VARIANT[0] == 'silence':
+            for k, va, vb in compare_after_silence(a, b):
+                print('DIVERGENCE after silence in %s:\n  sync : %r\n  async: %r' % (k, va, vb))
+                return 1
         print('no divergence')
         return 1 if err else 0
     finally:
